@@ -14,7 +14,7 @@ import re
 
 S = Sym
 PROPERTY = 'C06'
-PROPS_MODULES = ['C06']
+PROPS_MODULES = ['C06', 'C06b']
 ASSUMPTIONS = ['the printed text is compared with the model printer token by token, numeric tokens by value (Python float formatting of '
                'time bounds is outside the exact model)']
 
@@ -109,6 +109,25 @@ def run(ctx):
                 continue
             if canon_text(str(x[1])) != canon_text(str(ast)):
                 disagreements.append({'input': {'entry': entry, 'source': src}, 'impl': str(ast), 'model': str(x[1])})
+    # the token-level round-trip theorem (Props/C06b parse_toks_roundtrip) on the concrete texts: the parser's tree satisfies the
+    # theorem's hypothesis (`printable`), the lexer makes `Raw.toks` of the printed form, the parser reads `Raw.toks` back
+    rt = {'checked': 0, 'printable': 0, 'toks_equal': 0, 'read_back': 0}
+    if ctx.driver is not None:
+        rt_items = [(entry, src, ast) for entry, src, _, _, ast in items if entry in ('expression', 'predicate')]
+        rt_items += [(entry, str(ast), ast) for entry, src, _, _, ast in items if entry in ('expression', 'predicate') and not (entry == 'predicate' and ast.is_vacuous)]
+        am = ctx.driver.run_parallel([dumps([S('rtcheck'), S(entry), src]) for entry, src, _ in rt_items])
+        for (entry, src, ast), a in zip(rt_items, am):
+            x = loads(a)
+            if x[0] != 'ok':
+                disagreements.append({'input': {'entry': entry, 'source': src}, 'impl': 'accepted', 'model': str(x), 'op': 'rtcheck'})
+                continue
+            rt['checked'] += 1
+            flags = [str(v) == '1' for v in x[1:4]]
+            rt['printable'] += flags[0]; rt['toks_equal'] += flags[1]; rt['read_back'] += flags[2]
+            if not all(flags):
+                disagreements.append({'input': {'entry': entry, 'source': src}, 'op': 'rtcheck',
+                                      'impl': 'accepted', 'model': {'printable': flags[0], 'lexer_makes_toks_of_printed_form': flags[1], 'toks_read_back': flags[2]},
+                                      'what': 'the token-level round-trip theorem does not cover this parser output'})
     samples = [{'entry': e, 'source': s[:120], 'printed': str(a)[:160]} for e, s, _, _, a in items[:2] + items[n:n + 3] + items[-2:]]
     return {
         'evaluations': len(items),
@@ -119,7 +138,7 @@ def run(ctx):
         'samples': samples,
         'violations': violations,
         'disagreements': disagreements,
-        'coverage_extra': {'generator_rejects': rejects, 'distinct_printed_forms': len(printed)},
+        'coverage_extra': {'generator_rejects': rejects, 'distinct_printed_forms': len(printed), 'roundtrip_theorem_instances': rt},
     }
 
 
